@@ -17,6 +17,8 @@ use axelar_operators::{AxelarOperators, AxelarOperatorsClient};
 use axelar_soroban_std::types::Token;
 use interchain_token::InterchainTokenClient;
 use proptest::prelude::*;
+#[allow(unused_imports)]
+use crate::prop_oneof;
 use serde::{Deserialize, Serialize};
 use soroban_sdk::testutils::Address as _;
 use soroban_sdk::token::TokenClient;
